@@ -143,6 +143,14 @@ def check_fitter(ctx):
             findings=I.findings, detail_ok='av_law == extinction_law.get_av(models.wavelengths)')
     compare(ctx, 'ALG-8', 'sc_law', loc(init), me.attrs.get('sc_law'), Poly.const(-2), (W,), vocab={'lam'}, fns={'get_av'},
             detail_ok='sc_law == -2 on every filter (flux ~ d^-2: one dex of scale is -2 dex of flux)')
+    # the A_V range the fitter keeps is the range it was given (both bounds as numbers: 0 is a bound like any other)
+    got_range = me.attrs.get('av_range')
+    if isinstance(got_range, (tuple, list)) and len(got_range) == 2:
+        for k_, nm_ in enumerate(('lo', 'hi')):
+            compare(ctx, 'ALG-8', 'Fitter keeps the A_V range it is given: %s bound' % ('lower' if k_ == 0 else 'upper'), loc(init), I._as_arr(got_range[k_]), sym(nm_), (), vocab={'lo', 'hi'},
+                    detail_ok='av_range[%d] as given' % k_)
+    else:
+        ctx.undecided('ALG-8', 'Fitter keeps the A_V range it is given', loc(init), 'av_range after construction not modelled: %r' % (got_range,))
     # Fitter.fit argument order
     me2 = Obj(repo.cls('fit', 'Fitter'), {'models': Obj(repo.cls('models', 'Models')), 'av_law': symarr('A', (W,)), 'sc_law': symarr('S', (W,)),
                                          'av_range': (scalar(sym('lo')), scalar(sym('hi'))), 'model_dir': 'dir', 'filters': [], 'extinction_law': ext})
@@ -220,7 +228,8 @@ def check_log_fluxes(ctx):
     g = ctx.fn(repo.func('models', 'Models.log_fluxes_mJy@getter'))
     for dd in ((M, W), (M, D, W)):
         I = Interp(repo)
-        me = init_obj(repo, repo.cls('models', 'Models'), {'_fluxes': symarr('Fm', dd, unit=unit_atom('mJy'))})
+        # (the grid may be held in any flux unit the setter accepts: a symbolic one, so that the conversion to mJy is seen)
+        me = init_obj(repo, repo.cls('models', 'Models'), {'_fluxes': symarr('Fm', dd, unit=unit_atom('Ugrid'))})
         out = I.call(g, [], selfv=me)
         Fm = sym('Fm', *dd)
         facts = Facts().assume_false(alg.eq(Fm, 0))
@@ -261,6 +270,8 @@ def run(ctx):
     c14.check_get_av(ctx)        # 'k is the extinction law normalised to -0.4 at V' (ALG-9, EFF-4)
     from . import c02
     c02.check_readers(ctx)       # 'log10 model flux': what the fit is given as model fluxes is the convolved flux in mJy, filter by filter (ALG-10)
+    from . import c03
+    c03.check_chi(ctx, c03.check_transform(ctx))          # 'plus the limit penalties evaluated at the same (A_V, scale)': chi_squared per flag, limits included
     c02.check_readers_two_filters(ctx)
     c02.check_readers_distance_independent(ctx)          # ... and for the packages the 2-parameter fit is made for: the flux as stored, no distance grid
 
